@@ -201,6 +201,29 @@ class Sym(object):
     def is_const(self):
         return self.op == 'const'
 
+    # numpy-scalar protocol
+    shape = ()
+    size = 1
+    ndim = 0
+
+    @property
+    def dtype(self):
+        return _np.dtype(float)
+
+    @property
+    def T(self):
+        return self
+
+    def item(self):
+        return self
+
+    def flatten(self):
+        a = _np.empty(1, dtype=object)
+        a[0] = self
+        return a
+
+    ravel = flatten
+
     def cval(self):
         return self.a[0]
 
